@@ -63,7 +63,7 @@ Definition run_map (tag : ustr) (args : list sexp) : option sexp :=
   else if tag_is tag "applies" then
     (* does the end-to-end theorem of C01 (Proofs/DocEngineP.v) cover this configuration and document? *)
     match args with
-    | [c; d] => do c' <- de_cfg c; do d' <- de_doc d; Some (L [A (u "ok"); sx_bool (theorem_applies (cc_nquads c') d' || theorem_applies_joins d' || theorem_applies_quoted d')])
+    | [c; d] => do c' <- de_cfg c; do d' <- de_doc d; Some (L [A (u "ok"); sx_bool (theorem_applies (cc_nquads c') d' || theorem_applies_joins d' || theorem_applies_quoted d' || theorem_applies_qobj d')])
     | _ => None
     end
   else if tag_is tag "rules" then
